@@ -528,7 +528,8 @@ func (uconn *UConn) extensionsList() []uint16 {
 
 	outerExts := []uint16{}
 	for _, ext := range uconn.Extensions {
-		buffer := cryptobyte.String(make([]byte, 2000))
+		// large enough for the whole extension: Read writes nothing into a shorter buffer
+		buffer := cryptobyte.String(make([]byte, max(ext.Len(), 4)))
 		ext.Read(buffer)
 		var extension uint16
 		buffer.ReadUint16(&extension)
